@@ -7,7 +7,9 @@ Coq project coq/c04 (on top of the shared engine core coq/engine):
 What runs, through props/engine_common.run_engine_check:
   * every trace of the real engine (profile `final`: a failing stage at every position - pre, continuous initial /
     k-th run, sequence, post, deferred, plan and block level, bypass - and a continuous check parked in flight by the
-    director exactly when the last block / the block finishes; plus `mixed`; plus 2-6 plans on one Workstream) must be
+    director exactly when the last block / the block finishes; plus `mixed`; plus the bounded-exhaustive `tol` family
+    (tolerance x concurrency x failing subsets with held sequences: a sequence in flight when the block gives up -
+    the E3 shape); plus 2-6 plans on one Workstream) must be
     ACCEPTED by the observable automaton (coq/engine/Auto.v) - which includes: the terminal plan write equals
     Final.final of the durable image, Release only after it, the released plan equals the durable image, nothing but
     equal re-reads afterwards;
@@ -35,7 +37,7 @@ def run(ctx):
     ctx.evidence = lambda coverage, assumptions=None, level="proof": captured.update(cov=coverage, asm=assumptions, level=level)
     out = ec.run_engine_check(
         ctx,
-        profile=[("final", 224, 2400), ("mixed", 96, 1200)],
+        profile=[("final", 224, 2400), ("mixed", 96, 1200), ("tol", 360, 1440)],
         n_quick=0, n_thorough=0,
         extra_header="From Coercion.C04 Require Import MonC04.",
         monitors=["mon_final", ("mon_final_diag", "list")],
